@@ -16,7 +16,10 @@ CONFIG['C06'] = {
     'rule': "whole images through the real alpha kernels: 6 alpha pixel types x {mul,div} x back-ends {none,sse4,avx2} x "
             "{two-image,in-place} x {typed,dynamic}; 8-bit: all 65,536 (colour, alpha) pairs per configuration, rotated so that "
             "lane positions vary, plus 3-row images of 14 widths (every main-loop / remainder / tail position); 16-bit: boundary "
-            "grid + structured random pairs incl. colour > alpha and alpha = 1; f32: specials, random, inf/nan. "
+            "grid + structured random pairs incl. colour > alpha and alpha = 1; f32: specials, random, inf/nan; the same operations "
+            "through cropped / nested / offset views over longer buffers (5 placements for source and destination, whole buffers "
+            "compared: nothing outside the destination view may change; size mismatches rejected); the constant tables RECIP_ALPHA, "
+            "RECIP_ALPHA16 and the 8-bit clip table as built by the implementation (hooks) against the translated generators. "
             "A case is one image; distinct_nontrivial counts distinct request lines (hash of configuration and content). "
             "Each case is judged twice by the Lean driver: model == implementation, and implementation satisfies Spec.Alpha.",
     'trusted_base': COMMON_TB + [
@@ -378,11 +381,13 @@ CONFIG['C02'] = _resize_cfg(
     "of width*channels mod 32) x heights (every residue mod 4) x offsets 0..2 x weight styles (non-negative, negative lobes, strong "
     "alternation, tiny weights: precisions 13..21 all reached inside the head-room) x back-ends none / sse4 / avx2; (b) whole resizes on "
     "SSE4.1 and AVX2 against the portable back-end (all types, algorithms, crops, alpha on/off); (c) alpha multiply / divide images (C06's "
-    "generator). Oracle: integer formats byte-identical to the portable back-end (16-bit alpha division one unit), f32 within a few ulps.",
+    "generator, incl. cropped / nested views and the constant tables read through the hooks). Oracle: integer formats byte-identical to the portable back-end (16-bit alpha division one unit), f32 within a few ulps.",
     "Machine-checked proof (Lean 4): any chunking / re-association of an integer dot product, with exact or wrapping accumulators, gives "
     "the same sum; the SIMD finishing sequence srai -> packs_epi32 -> packus_epi16 equals the translated clip table for every 32-bit "
-    "accumulator and precision, and Normalizer32::clip equals the packus_epi32 clamp; madd_epi16 pair products are exact. The lane plumbing "
-    "is tied by correspondence over every remainder branch of every kernel.",
+    "accumulator and precision, and Normalizer32::clip equals the packus_epi32 clamp; madd_epi16 pair products are exact; the SIMD 8-bit "
+    "alpha-division lane (f32 reciprocal, cvtps_epi32, slli 7, mulhrs_epi16, min_epu16 with 255) equals the portable recip-table division "
+    "for all 65,536 (colour, alpha) pairs (exact soft-float, decide +kernel), and the intrinsic skeleton of the four kernels is pinned "
+    "to the source on every run. The lane plumbing is tied by correspondence over every remainder branch of every kernel.",
     ["shuffle masks, lane placement and load widths are not modelled (correspondence only); NEON and WASM kernels cannot be executed here",
      "float formats: tolerance of a re-associated f64 sum is applied by the oracle, the bound is not proved in Lean"],
     "Lean 4 theorems over integer dot products and the translated clip functions + exhaustive-residue differential correspondence across back-ends")
